@@ -333,7 +333,16 @@ theorem offset_formats_match_source :
     fmt20 = digitsW Ebu.Generated.Consts.memOffsetWidth := by
   refine ⟨by decide, by decide, by decide, by decide, by decide, by decide, rfl⟩
 """),
- "C11": ("Ebu.Generated.Consts", """/-- the model's default batch size is the one in the CURRENT source (extracted from Replay) -/
+ "C11": ("Ebu.Generated.Consts\nimport Ebu.Generated.SqlFacts", """/-- OBLIGATION on the current source: every SELECT over the events table (paged read, stream, batched stream) is a
+position cursor – `WHERE position > ? ORDER BY position`, optionally `LIMIT ?` – as the models of `Read`, the stream and
+`replaySqlBatched` assume; none pages with OFFSET (which counts rows instead of remembering where it was) -/
+theorem sqlite_reads_are_position_cursors :
+    Ebu.Generated.Sql.readSqls.length ≥ 3 ∧
+    (Ebu.Generated.Sql.readSqls.all (fun st =>
+      (st.drop 8).take 7 == ["FROM", "events", "WHERE", "position", ">", "?", "ORDER"] && !st.contains "OFFSET" &&
+      (st.drop 15 == ["BY", "position"] || st.drop 15 == ["BY", "position", "LIMIT", "?"]))) = true := by decide
+
+/-- the model's default batch size is the one in the CURRENT source (extracted from Replay) -/
 theorem default_batch_matches_source : effBatch 0 = Ebu.Generated.Consts.replayDefaultBatch ∧ effBatch (-5) = Ebu.Generated.Consts.replayDefaultBatch := by
   decide
 """),
